@@ -214,18 +214,20 @@ def slow_http_conversations(seed, n):
 
 
 def f27_normalise(trace):
-    """Known finding F27 (threaded client, pre-emptive schedule): one step with two client
-    disconnect events - 'transport error' / 'server disconnect' from the read loop, then 'client
-    disconnect' from disconnect() itself.  Returns (trace without the first of the two, hit):
-    the rest of the conversation is still validated."""
+    """Known finding F27 (threaded client, pre-emptive schedule): a step in which the application
+    called disconnect() has two client disconnect events of different reasons, one 'client' (from
+    disconnect() itself), the other 'terror' / 'server' (from the read loop, which ended the
+    connection in the gap before disconnect() changed the state).  Returns (trace without the
+    read loop's event, hit): the rest of the conversation is still validated."""
     out, hit = [], False
     for st in trace:
         cd = [i for i, e in enumerate(st['ev']) if e['e'] == 'cdisc']
-        if st['op'] in ('csendcdisc', 'cdisc') and len(cd) == 2 and \
-                st['ev'][cd[0]].get('r') in ('terror', 'server') and st['ev'][cd[1]].get('r') == 'client' \
-                and any(e['e'] == 'sdisc' for e in st['ev'][:cd[0]]):
-            st = dict(st, ev=[e for i, e in enumerate(st['ev']) if i != cd[0]])
-            hit = True
+        if st['op'] in ('csendcdisc', 'cdisc', 'bothdisc') and len(cd) == 2:
+            rs = [st['ev'][i].get('r') for i in cd]
+            if sorted(rs) in (['client', 'terror'], ['client', 'server']):
+                drop = cd[0] if rs[0] != 'client' else cd[1]
+                st = dict(st, ev=[e for i, e in enumerate(st['ev']) if i != drop])
+                hit = True
         out.append(st)
     return out, hit
 
@@ -239,7 +241,11 @@ def racing_conversations(seed, n):
             sc.append({'op': 'csend', 'k': rng.choice([1, 2, 17])})
         if rng.random() < 0.3:
             sc.append({'op': 'ssend', 'k': rng.choice([1, 2])})
-        sc.append({'op': 'csendcdisc', 'k': rng.choice([1, 1, 2, 3, 5, 17])})
+        end = rng.choice(['csendcdisc', 'csendcdisc', 'ssendsdisc', 'bothdisc'])
+        if end == 'bothdisc':
+            sc.append({'op': 'bothdisc'})
+        else:
+            sc.append({'op': end, 'k': rng.choice([1, 1, 2, 3, 5, 17])})
         sc.append({'op': 'tick', 't': 400})
         out.append(sc)
     return out
@@ -391,11 +397,11 @@ def explain(tr):
     asked = False
     cd = sd = 0
     for li, st in enumerate(tr):
-        if st['op'] in ('cdisc', 'sdisc', 'csendcdisc'):
+        if st['op'] in ('cdisc', 'sdisc', 'csendcdisc', 'ssendsdisc', 'bothdisc'):
             asked = True
         if st['op'] in ('csend', 'csendcdisc'):
             cs += len(st['a']['acc'])
-        if st['op'] == 'ssend':
+        if st['op'] in ('ssend', 'ssendsdisc'):
             ss += len(st['a']['acc'])
         for e in st['ev']:
             if e['e'] == 'sconnect':
